@@ -28,6 +28,8 @@ def _standin(rep, tier, seed, only_search=False):
             distinct.add(("offset", off, len(a), len(b)))
             if only_search and not ok:
                 return
+    evals += dc.view_cases(rep, KIND, rng, 12 if tier == "quick" else 300)
+    evals += dc.huge_typed_case(rep, KIND, rng)
     if not only_search:
         rep.bounded("wasserstein-vs-bruteforce", "all pairs of diagrams with <=2 points on a 3x3 lattice (+ one infinite bar), random pairs of <=4 points, scales 1e-9..1e6, diagonal offsets 1e3/1e6/1e8",
                     evals, len(distinct), "distinct = (feature class, sizes, source); oracle = all permutations of the augmented matrix built from the statement (<=7x7), float rule of DESIGN 2.6", samples, exhaustive=True)
